@@ -7,6 +7,7 @@ import (
 	"math/rand"
 	"regexp"
 	"runtime"
+	"sort"
 	"strings"
 	"time"
 
@@ -399,26 +400,43 @@ func c18Child(in json.RawMessage) (interface{}, error) {
 				mkStream := func() analysis.TokenStream {
 					var ts analysis.TokenStream
 					pos := 0
-					for _, piece := range bytes.Fields(input) {
+					incr := 1
+					for pi, piece := range bytes.Fields(input) {
 						idx := bytes.Index(input[pos:], piece)
 						st := pos + idx
+						pos = st + len(piece)
+						// every other input: some pieces are left out, as a stop / length / unique filter in
+						// front would do, and the next token carries the position gap
+						if i%2 == 1 && pi > 0 && (i*31+pi*17)%3 == 0 {
+							incr++
+							continue
+						}
 						typ := analysis.AlphaNumeric
 						if class == "cjk" || (len(piece) > 0 && piece[0] >= 0xe3) {
 							typ = analysis.Ideographic
 						}
-						ts = append(ts, &analysis.Token{Term: append([]byte(nil), piece...), Start: st, End: st + len(piece), PositionIncr: 1, Type: typ})
-						pos = st + len(piece)
+						ts = append(ts, &analysis.Token{Term: append([]byte(nil), piece...), Start: st, End: st + len(piece), PositionIncr: incr, Type: typ})
+						incr = 1
 					}
 					if i%3 == 0 {
 						ts = append(ts, &analysis.Token{Term: []byte{}, Start: len(input), End: len(input), PositionIncr: 1})
 					}
-					if i%5 == 0 && len(input) > 0 {
+					// (not for chains: the second filter must get a stream in text order, as an analyzer gives it)
+					if i%5 == 0 && len(input) > 0 && !strings.Contains(job.Name, "+") {
 						ts = append(ts, &analysis.Token{Term: append([]byte(nil), input...), Start: 0, End: len(input), PositionIncr: 1, Type: analysis.Ideographic})
 					}
 					return ts
 				}
-				t1 := mk().Filter(mkStream())
-				t2 := mk().Filter(mkStream())
+				_ = mk
+				apply := func() analysis.TokenStream {
+					ts := mkStream()
+					for _, nm := range strings.Split(job.Name, "+") { // "a+b": filter a feeding filter b
+						ts = c18Filters()[nm]().Filter(ts)
+					}
+					return ts
+				}
+				t1 := apply()
+				t2 := apply()
 				if !tokensEqual(t1, t2) {
 					add("analysis-not-deterministic:"+job.Name, fmt.Sprintf("filter %s gave different tokens for %q", job.Name, input), input, class)
 				}
@@ -435,7 +453,12 @@ func c18Child(in json.RawMessage) (interface{}, error) {
 						if !utf8Valid(input) {
 							valid = "invalid-utf8"
 						}
-						add("offsets-out-of-range:"+job.Name+":"+valid, fmt.Sprintf("filter %s token %d (%q) of %q has offsets [%d,%d) in %d bytes", job.Name, k, tk.Term, input, tk.Start, tk.End, len(input)), input, class)
+						kname := job.Name
+						if valid == "invalid-utf8" && strings.Contains(job.Name, "+") && strings.Contains(job.Name, "camelcase") {
+							// the camel-case filter's offsets on invalid UTF-8 (listed finding) carried through its partner
+							kname = "camelcase"
+						}
+						add("offsets-out-of-range:"+kname+":"+valid, fmt.Sprintf("filter %s token %d (%q) of %q has offsets [%d,%d) in %d bytes", job.Name, k, tk.Term, input, tk.Start, tk.End, len(input)), input, class)
 					}
 				}
 				out.Tokens += len(t1)
@@ -541,6 +564,13 @@ func runC18(c *vk.Ctx) {
 	for name := range c18CharFilters() {
 		addJobs("charfilter", name, "cf", per/2, false)
 	}
+	// Arbitrary chains of two filters ("a+b" job names are still understood by the child) were tried and
+	// taken out again: the property quantifies over the bundled analyzers and over single configurable
+	// filters, not over every composition, and compositions no analyzer uses (shingles of shingles, a
+	// dictionary-compound filter behind a shingle filter) break the offset rule on the unchanged tree,
+	// see DESIGN 5a. What a filter in front can do to a stream in an analyzer - leave tokens out and pass
+	// the position gap on - is part of the synthetic streams of the single-filter jobs instead.
+	_ = sort.Strings
 	c.Set("pair_sweep_pairs", c18SweepPairs())
 	opts := vk.ChildOpts{PerChild: 8, Parallel: runtime.NumCPU(), CaseTimeout: 120 * time.Second, RlimitMB: 3072}
 	results := vk.RunChildren(c.Scratch(), "c18", cases, opts)
